@@ -13,21 +13,26 @@
 
 namespace c10 {
 volatile int* g_step = nullptr;
-#define X(n) std::string run_##n(const std::vector<std::string>& w);
-X(1) X(2) X(3) X(4) X(5) X(8) X(10) X(30) X(254) X(255) X(256) X(300)
+// same capacity for both objects, and pairs of different capacities in both orders
+#define C10_SAME(X) X(1,1) X(2,2) X(3,3) X(4,4) X(5,5) X(8,8) X(10,10) X(20,20) X(30,30) X(254,254) X(255,255) X(256,256) X(300,300)
+#define C10_MIXED(X) X(1,3) X(3,1) X(2,20) X(20,2) X(3,20) X(20,3) X(3,30) X(30,3) X(20,255) X(255,20) \
+                     X(30,256) X(256,30) X(255,256) X(256,255) X(3,256) X(256,3)
+#define X(l,s) std::string run_##l##_##s(const std::vector<std::string>& w);
+C10_SAME(X) C10_MIXED(X)
 #undef X
 }
 
 namespace {
 
-#define CAPS(X) X(1) X(2) X(3) X(4) X(5) X(8) X(10) X(30) X(254) X(255) X(256) X(300)
-
 std::string run_case(const std::vector<std::string>& w)
 {
    if (w.size() < 5) return "bad-case";
-   const size_t cap = std::stoull(w[2]);
-#define X(n) if (cap == n) return c10::run_##n(w);
-   CAPS(X)
+   // capacity token: "L" (both objects FixedString< L>) or "L/S" (the other object is a FixedString< S>)
+   const size_t slash = w[2].find('/');
+   const size_t cap = std::stoull(w[2].substr(0, slash));
+   const size_t ocap = slash == std::string::npos ? cap : std::stoull(w[2].substr(slash + 1));
+#define X(l,s) if (cap == l && ocap == s) return c10::run_##l##_##s(w);
+   C10_SAME(X) C10_MIXED(X)
 #undef X
    return "unsupported-capacity";
 }
